@@ -1,0 +1,71 @@
+//go:build verif
+
+package vm
+
+import (
+	"github.com/paulsonkoly/calc/memory"
+	"github.com/paulsonkoly/calc/types/bytecode"
+)
+
+// verifOn guards the verification hooks; this file is only built with -tags verif.
+const verifOn = true
+
+// StepInfo describes the instruction that is about to execute.
+type StepInfo struct {
+	IP     int           // instruction pointer
+	Instr  bytecode.Type // instruction about to execute
+	Ctx    int           // small stable id of the executing context (0 = main)
+	Parent int           // id of the parent context, -1 for main
+	Depth  int           // call depth of the executing context's memory
+	Mem    *memory.Type  // memory of the executing context
+}
+
+// Hook, when set, is called before every instruction. A non-nil error aborts
+// the run through the ordinary runtime-error path.
+var Hook func(*StepInfo) error
+
+var (
+	ctxIDs  = map[*context]int{}
+	stepBuf StepInfo
+)
+
+// ResetHookState forgets context ids (call between sessions).
+func ResetHookState() { ctxIDs = map[*context]int{} }
+
+func ctxID(vm *Type, c *context) int {
+	if c == nil {
+		return -1
+	}
+	if c == vm.main {
+		return 0
+	}
+	id, ok := ctxIDs[c]
+	if !ok {
+		id = len(ctxIDs) + 1
+		ctxIDs[c] = id
+	}
+	return id
+}
+
+func verifStep(vm *Type, c *context, ip int, instr bytecode.Type, m *memory.Type) error {
+	if Hook == nil {
+		return nil
+	}
+	stepBuf = StepInfo{IP: ip, Instr: instr, Ctx: ctxID(vm, c), Parent: ctxID(vm, c.parent), Depth: m.CallDepth(), Mem: m}
+	return Hook(&stepBuf)
+}
+
+// MainIP is the instruction pointer the next Run resumes from.
+func (vm *Type) MainIP() int { return vm.main.ip }
+
+// LiveContexts counts the iterator contexts registered under the main context, recursively.
+func (vm *Type) LiveContexts() int { return countContexts(vm.main) }
+
+func countContexts(c *context) int {
+	n := 0
+	c.children.ForEach(func(_ uint64, child *context) bool {
+		n += 1 + countContexts(child)
+		return true
+	})
+	return n
+}
